@@ -170,7 +170,7 @@ func ZZ_C09_k8_epoch_not_match() {
 	ctxVer := RegionVerID{id: X.Id, confVer: X.RegionEpoch.ConfVer, ver: X.RegionEpoch.Version}
 	store := w.c.stores.getOrInsertDefault(1)
 	ctx := &RPCContext{Region: ctxVer, Store: store}
-	shape := zzChoice("shape", 3)
+	shape := zzChoice("shape", 4)
 	nver := zzU64("newver")
 	nconf := zzU64("newconf")
 	zzAssume(nver <= 4 && nconf <= 2)
@@ -193,6 +193,13 @@ func ZZ_C09_k8_epoch_not_match() {
 		zzAssume(x < nsp)
 		hi = w.pd.regions[x+1].EndKey
 		reported = []*metapb.Region{{Id: X.Id, StartKey: X.StartKey, EndKey: hi, RegionEpoch: ep(), Peers: mkPeers(500)}}
+	case 3:
+		// X was split and its id stayed on the right part; the store reports only that part
+		m := zzBytes("mid", klen+1)
+		zzAssume(zzAnd(bytes.Compare(X.StartKey, m) < 0, zzIn(X.StartKey, X.EndKey, m)))
+		lo = m
+		zzAssume(nver > ctxVer.ver) // a split bumps the version
+		reported = []*metapb.Region{{Id: X.Id, StartKey: m, EndKey: X.EndKey, RegionEpoch: ep(), Peers: mkPeers(500)}}
 	}
 	pre := zzSnapIndex(&w.c.mu)
 	ahead := zzOr(nconf < ctxVer.confVer, nver < ctxVer.ver)
@@ -215,6 +222,10 @@ func ZZ_C09_k8_epoch_not_match() {
 	}
 	if !contains(lo, hi, k) {
 		zzAssert(got == before, "K8.outside-untouched")
+		if shape == 3 && contains(X.StartKey, X.EndKey, k) {
+			// the part X lost: the request's outdated description must not be served for it any more
+			zzAssert(w.c.TryLocateKey(k) == nil, "K8.outdated-entry-not-served-for-the-lost-range")
+		}
 		return
 	}
 	// newer neighbour inside the merged range?
